@@ -101,9 +101,6 @@ func C05_Int64Out_num() {
 	if n.isFloat && sym.Known("C05-int64-out-float-truncates", !n.equalsInt64(i)) {
 		return
 	}
-	if sym.Known("C05-int64-out-uint-wraps", n.isInt && !n.fitsI64) {
-		return
-	}
 	sym.Assert(n.equalsInt64(i), "value preserved")
 }
 
@@ -193,7 +190,20 @@ func C05_StringOut_int() {
 		lim = 300
 	}
 	small := sym.And(n.fitsI64, n.i64 > -lim, n.i64 < lim)
-	if sym.Known("C05-string-out-uint-wraps", !n.fitsI64) {
+	// unsigned values of 2^63 and more: E concrete boundaries (decimal
+	// formatting of a wide symbolic integer is value enumeration)
+	if (kind == kUint || kind == kUint64) && sym.Choice("beyond int64", 2) == 1 {
+		bigs := []uint64{1 << 63, 1<<63 + 1, 18446744073709551615}
+		texts := []string{"9223372036854775808", "9223372036854775809", "18446744073709551615"}
+		k := sym.Choice("big", len(bigs))
+		var v interface{} = bigs[k]
+		if kind == kUint {
+			v = uint(bigs[k])
+		}
+		r, err := outCoercer(name).CoerceOut(v)
+		sym.Assert(err == nil, "integer accepted")
+		s, ok := r.(string)
+		sym.Assert(ok && s == texts[k], "text denotes the value")
 		return
 	}
 	sym.Assume(small)
